@@ -77,6 +77,12 @@ impl Run {
         self.nontrivial.insert(*ctx);
         self.op(op, imp, false);
     }
+    /// note the op that is about to run: if the process dies (allocation failure, abort) the check
+    /// reads this file and reports that op as the failing input
+    pub fn mark(&self, op: &str) {
+        let _ = std::fs::create_dir_all(&self.work);
+        let _ = std::fs::write(self.work.join("current_op.txt"), op);
+    }
     /// an evaluation that has no model line (pure implementation-vs-oracle case)
     pub fn eval(&mut self, key: &str, nontrivial: bool) {
         self.evaluations += 1;
